@@ -1043,6 +1043,15 @@ fn write_evidence(prop: &str, tier: &str, seed: u64, level: &str, agg: &Agg, dis
     for (i, name) in fault_names.iter().enumerate() {
         faults.insert(name.to_string(), json!({"fired": agg.faults[i], "runs": agg.runs_with_fault[i]}));
     }
+    if prop == "C19" {
+        let ex = |k: &str| agg.extra.get(k).copied().unwrap_or(0);
+        let cases = ex("serde_cases");
+        faults.insert("stream_short_transfer".into(), json!({"fired": ex("serde_fault_short_transfer"), "cases": cases}));
+        faults.insert("stream_interrupted".into(), json!({"fired": ex("serde_fault_interrupted"), "cases": cases}));
+        faults.insert("stream_hard_error".into(), json!({"fired": ex("serde_fault_hard_error"), "cases": cases}));
+        faults.insert("stream_eof_or_write_zero".into(), json!({"fired": ex("serde_fault_eof_or_write_zero"), "cases": cases}));
+        faults.insert("length_hint_absent_or_wrong".into(), json!({"fired": ex("serde_cases_with_absent_or_wrong_length_hint"), "cases": cases}));
+    }
     let runs_per_hour = if wall_s > 0.0 { (agg.runs as f64 / wall_s * 3600.0) as u64 } else { 0 };
     let v = json!({
         "property_id": prop,
@@ -1080,15 +1089,35 @@ fn write_evidence(prop: &str, tier: &str, seed: u64, level: &str, agg: &Agg, dis
             "lock_contention_events": agg.contended,
             "reach_goals": props::reach_goals(prop, agg),
             "known_findings_hit": known_lines,
-            "components": {
-                "real": ["flurry (all of src/, built from /repo's working tree with --cfg flurry_verif)", "seize 0.3.3 (unmodified; one call = one atomic step)", "parking_lot mutex state (try_lock/unlock)"],
-                "stubbed": ["OS scheduling (baton scheduler decides every context switch)", "lock waiting (blocked-on set in the scheduler)", "thread park/unpark (scheduler tokens, optional spurious wake-ups)", "num_cpus / transfer stride (knobs)"]
-            }
+            "components": components_of(prop)
         },
         "assumptions": props::assumptions(prop),
     });
     let path = format!("{}/{}.json", dir, prop);
     let _ = std::fs::write(path, serde_json::to_string_pretty(&v).unwrap());
+}
+
+fn components_of(prop: &str) -> Value {
+    let mut real = vec![
+        "flurry (all of src/, built from /repo's working tree with --cfg flurry_verif, features rayon + serde on)".to_string(),
+        "seize 0.3.3 (unmodified; one call = one atomic step)".to_string(),
+        "parking_lot mutex state (try_lock/unlock)".to_string(),
+    ];
+    let mut stubbed = vec![
+        "OS scheduling (baton scheduler decides every context switch)".to_string(),
+        "lock waiting (blocked-on set in the scheduler)".to_string(),
+        "thread park/unpark (scheduler tokens, optional spurious wake-ups)".to_string(),
+        "num_cpus / transfer stride (knobs)".to_string(),
+    ];
+    if prop == "C19" {
+        real.push("flurry's rayon_impls.rs and serde_impls.rs".into());
+        real.push("rayon's iterator adaptors and plumbing (map, map_init, for_each_init, consumers, folders, reducers)".into());
+        real.push("serde + serde_json (serialiser, text deserialiser, io adaptors)".into());
+        stubbed.push("rayon-core's work-stealing thread pool: replaced by the simulated pool (parts published by drive_unindexed, taken by simulated threads)".into());
+        stubbed.push("the byte streams under serde_json: harness-owned Read/Write with injected short transfers, EINTR, hard errors, EOF".into());
+        stubbed.push("a length-announcing non-text deserializer written by the harness (exact / absent / wrong size hints)".into());
+    }
+    json!({"real": real, "stubbed": stubbed})
 }
 
 pub fn check_main(args: &[String]) -> i32 {
